@@ -137,6 +137,7 @@ Fixpoint cden (th : nat -> R) (e : ex) : C :=
   | Sqrt a => RtoC (sqrt (Re (cden th a)))
   end.
 
+Ltac ctype := match goal with |- @eq _ ?a ?b => change (@eq C a b) end.
 Ltac csolve := apply Ceq; cbn [fst snd Cmult Cplus Cminus Copp RtoC Ci Cconj cis Re Im]; ring.
 
 Lemma Q2R_m1 : Q2R (-1) = -1. Proof. unfold Q2R; simpl; lra. Qed.
@@ -461,3 +462,183 @@ Proof.
   cbn [K kadd kmul k0 k1 PO PR_C Cops]. ring.
 Qed.
 End Mono.
+
+(* --- the main soundness theorem --- *)
+Section Topoly.
+Variable tv : nat -> R.
+Notation PR := (PR_C tv).
+
+Lemma evalC_padd p q : eval PR (padd p q) = Cplus (eval PR p) (eval PR q).
+Proof. exact (eval_padd PR p q). Qed.
+Lemma evalC_pmul p q : eval PR (pmul p q) = Cmult (eval PR p) (eval PR q).
+Proof. exact (eval_pmul PR p q). Qed.
+Lemma evalC_psub p q : eval PR (psub p q) = Cminus (eval PR p) (eval PR q).
+Proof. exact (eval_psub PR p q). Qed.
+Lemma evalC_popp p : eval PR (popp p) = Copp (eval PR p).
+Proof. exact (eval_popp PR p). Qed.
+Lemma evalC_phalf : eval PR phalf = RtoC (/ 2).
+Proof. exact (eval_phalf PR). Qed.
+
+Lemma Re_lden_real f : lim f = false -> Re (lden tv f) = lreal tv f.
+Proof. intro H. unfold lden. rewrite H. cbn [imunit Re Cmult RtoC fst snd]. ring. Qed.
+Lemma Re_lden_imag f : lim f = true -> Re (lden tv f) = 0.
+Proof. intro H. unfold lden. rewrite H. cbn [imunit Re Cmult RtoC Ci fst snd]. ring. Qed.
+Lemma Im_lden_imag f : lim f = true -> Im (lden tv f) = lreal tv f.
+Proof. intro H. unfold lden. rewrite H. cbn [imunit Im Cmult RtoC Ci fst snd]. ring. Qed.
+
+Definition div_default (p : poly) (b : ex) : option poly :=
+  match linof b with
+  | Some g => if lconst g && negb (lim g) then obind (pinv_dyadic (lc g)) (fun i => Some (pmul p i)) else None
+  | None => None
+  end.
+Lemma topoly_div a b : topoly (Div a b) =
+  obind (topoly a) (fun p => match b with
+                             | Sqrt (Num q) => if Qeq_bool q 2 then Some (pmul p pisqrt2) else None
+                             | _ => div_default p b end).
+Proof. destruct b; reflexivity. Qed.
+
+Lemma div_default_sound p b r : div_default p b = Some r -> eval PR r = Cdiv (eval PR p) (cden tv b).
+Proof.
+  unfold div_default. destruct (linof b) as [g|] eqn:Eg; [|discriminate].
+  destruct (lconst g && negb (lim g)) eqn:E; [|discriminate].
+  destruct (pinv_dyadic (lc g)) as [i|] eqn:Ei; [|discriminate]. cbn [obind]. intros [= <-].
+  apply andb_prop in E. destruct E as [E1 E2]. apply negb_true_iff in E2.
+  destruct (pinv_dyadic_sound tv _ _ Ei) as [Hc Hi].
+  rewrite evalC_pmul, Hi, (linof_sound tv b g Eg). unfold lden. rewrite E2, (lconst_real tv g E1). cbn [imunit].
+  rewrite RtoC_inv by assumption.
+  assert (Hc' : RtoC (Q2R (lc g)) <> RtoC 0) by (intro A; apply RtoC_inj in A; contradiction).
+  ctype. field. exact Hc'.
+Qed.
+
+Lemma div_sqrt2_sound p q : Qeq_bool q 2 = true ->
+  eval PR (pmul p pisqrt2) = Cdiv (eval PR p) (RtoC (sqrt (Re (RtoC (Q2R q))))).
+Proof.
+  intro E. rewrite evalC_pmul, eval_pisqrt2. cbn [Re RtoC fst]. rewrite (RMicromega.Qeq_true _ _ E), Q2R_2.
+  rewrite RtoC_inv by exact sqrt2_neq_0. reflexivity.
+Qed.
+
+Theorem topoly_sound_tv e : forall p, topoly e = Some p -> eval PR p = cden tv e.
+Proof.
+  induction e as [q|q| |j|a IHa b IHb|a IHa b IHb|a IHa b IHb|a IHa b _|a IHa|a _|a _|a _|a _]; intros p H.
+  - (* Num *) apply pdyadic_sound. exact H.
+  - (* Imag *) cbn [topoly] in H. destruct (pdyadic q) as [p0|] eqn:E; [|discriminate]. cbn [obind] in H.
+    injection H as <-. rewrite evalC_pmul, eval_pI, (pdyadic_sound tv _ _ E). reflexivity.
+  - discriminate.
+  - discriminate.
+  - (* Add *) cbn [topoly] in H. destruct (topoly a) as [pa|]; [|discriminate]. destruct (topoly b) as [pb|]; [|discriminate].
+    cbn [obind] in H. injection H as <-. rewrite evalC_padd, (IHa _ eq_refl), (IHb _ eq_refl). reflexivity.
+  - (* Sub *) cbn [topoly] in H. destruct (topoly a) as [pa|]; [|discriminate]. destruct (topoly b) as [pb|]; [|discriminate].
+    cbn [obind] in H. injection H as <-. rewrite evalC_psub, (IHa _ eq_refl), (IHb _ eq_refl). reflexivity.
+  - (* Mul *) cbn [topoly] in H. destruct (topoly a) as [pa|]; [|discriminate]. destruct (topoly b) as [pb|]; [|discriminate].
+    cbn [obind] in H. injection H as <-. rewrite evalC_pmul, (IHa _ eq_refl), (IHb _ eq_refl). reflexivity.
+  - (* Div *) rewrite topoly_div in H. destruct (topoly a) as [pa|]; [|discriminate]. cbn [obind] in H.
+    cbn [cden]. rewrite <- (IHa _ eq_refl).
+    destruct b as [ | | | | | | | | | | | |b0]; try (apply div_default_sound; exact H).
+    destruct b0 as [q| | | | | | | | | | | | ]; try (apply div_default_sound; exact H).
+    destruct (Qeq_bool q 2) eqn:E; [|discriminate]. injection H as <-. apply div_sqrt2_sound. exact E.
+  - (* Neg *) cbn [topoly] in H. destruct (topoly a) as [pa|]; [|discriminate]. cbn [obind] in H. injection H as <-.
+    rewrite eval_pnorm, evalC_popp, (IHa _ eq_refl). reflexivity.
+  - (* Cos *) cbn [topoly] in H. destruct (linof a) as [f|] eqn:Ef; [|discriminate].
+    destruct (lim f) eqn:El; [discriminate|]. destruct (cis_mono f) as [m|] eqn:Em; [|discriminate].
+    cbn [obind] in H. injection H as <-.
+    rewrite evalC_pmul, evalC_padd, evalC_phalf, (cis_mono_sound tv f m Em), (cis_mono_inv_sound tv f m Em).
+    cbn [cden]. rewrite (linof_sound tv a f Ef), (Re_lden_real f El).
+    apply Ceq; cbn [fst snd Cmult Cplus RtoC cis]; rewrite ?cos_neg, ?sin_neg; field.
+  - (* Sin *) cbn [topoly] in H. destruct (linof a) as [f|] eqn:Ef; [|discriminate].
+    destruct (lim f) eqn:El; [discriminate|]. destruct (cis_mono f) as [m|] eqn:Em; [|discriminate].
+    cbn [obind] in H. injection H as <-.
+    rewrite !evalC_pmul, evalC_psub, evalC_phalf, eval_pu24, (cis_mono_sound tv f m Em), (cis_mono_inv_sound tv f m Em).
+    cbn [cden]. rewrite (linof_sound tv a f Ef), (Re_lden_real f El).
+    apply Ceq; cbn [fst snd Cmult Cplus Cminus Copp Ci RtoC cis]; rewrite ?cos_neg, ?sin_neg; field.
+  - (* Exp *) cbn [topoly] in H. destruct (linof a) as [f|] eqn:Ef; [|discriminate].
+    destruct (lim f) eqn:El; [|discriminate]. destruct (cis_mono f) as [m|] eqn:Em; [|discriminate].
+    cbn [obind] in H. injection H as <-. rewrite (cis_mono_sound tv f m Em).
+    cbn [cden]. unfold Cexp. rewrite (linof_sound tv a f Ef), (Re_lden_imag f El), (Im_lden_imag f El), exp_0.
+    rewrite Cmult_1_l. reflexivity.
+  - (* Sqrt *) destruct a as [q| | | | | | | | | | | | ]; try discriminate. cbn [topoly] in H.
+    destruct (Qeq_bool q 2) eqn:E; [|discriminate]. injection H as <-.
+    rewrite eval_psqrt2. cbn [cden Re RtoC fst]. rewrite (RMicromega.Qeq_true _ _ E), Q2R_2. reflexivity.
+Qed.
+End Topoly.
+
+Theorem topoly_sound : forall (th : nat -> R) e p, topoly e = Some p -> eval (PR_C th) p = cden th e.
+Proof. intros th e p. apply topoly_sound_tv. Qed.
+
+(* ---------------------------------------------------------------------------------------------- *)
+(* (e) matrix expressions: entries of [mtab m] evaluate to the entries of the complex matrix [mden] *)
+Fixpoint mdim (m : mexp) : nat :=
+  match m with
+  | MLit rows => length rows
+  | MMul a b => mdim a
+  | MScale e a => mdim a
+  | MCtrl nc cv a => (2 ^ nc * mdim a)%nat
+  end.
+Fixpoint mden (th : nat -> R) (m : mexp) : nat -> nat -> C :=
+  match m with
+  | MLit rows => fun i j => cden th (nth j (nth i rows []) (Num 0))
+  | MMul a b => fun i j => @ksum Cops (map (fun k => Cmult (mden th a i k) (mden th b k j)) (seq 0 (mdim a)))
+  | MScale e a => fun i j => Cmult (cden th e) (mden th a i j)
+  | MCtrl nc cv a => fun i j =>
+      let d := mdim a in
+      if Nat.eqb (i / d) (j / d) then
+        (if Nat.eqb (i / d) cv then mden th a (i mod d) (j mod d)
+         else if Nat.eqb (i mod d) (j mod d) then RtoC 1 else RtoC 0)
+      else RtoC 0
+  end.
+
+Lemma osequence_nth {A B} (f : A -> option B) l : forall r, osequence (map f l) = Some r ->
+  length r = length l /\ forall i da db, (i < length l)%nat -> f (nth i l da) = Some (nth i r db).
+Proof.
+  induction l as [|a l IH]; intros r H; cbn [map osequence] in H.
+  - injection H as <-. split; [reflexivity|]. intros i da db Hi. simpl in Hi. lia.
+  - destruct (f a) as [b|] eqn:Ea; [|discriminate]. destruct (osequence (map f l)) as [r'|]; [|discriminate].
+    injection H as <-. destruct (IH r' eq_refl) as [Hl Hn]. split; [simpl; rewrite Hl; reflexivity|].
+    intros [|i] da db Hi; [exact Ea|]. simpl in Hi. apply Hn. lia.
+Qed.
+
+Lemma square_row (tb : ptab) i : square tb = true -> (i < length tb)%nat -> length (nth i tb []) = length tb.
+Proof.
+  unfold square. rewrite forallb_forall. intros H Hi. apply Nat.eqb_eq. apply H. apply nth_In. exact Hi.
+Qed.
+
+Lemma length_map_seq {A} (f : nat -> A) n : length (map f (seq 0 n)) = n.
+Proof. rewrite map_length, seq_length. reflexivity. Qed.
+
+Theorem mtab_sound (th : nat -> R) m : forall tb, mtab m = Some tb ->
+  length tb = mdim m /\
+  forall i j, (i < mdim m)%nat -> (j < mdim m)%nat -> eval (PR_C th) (pentry tb i j) = mden th m i j.
+Proof.
+  induction m as [rows|a IHa b IHb|e a IHa|nc cv a IHa]; intros tb H; cbn [mtab] in H.
+  - (* MLit *)
+    destruct (osequence (map (fun r => osequence (map topoly r)) rows)) as [tb0|] eqn:E; [|discriminate].
+    cbn [obind] in H. destruct (square tb0) eqn:Sq; [|discriminate]. injection H as <-.
+    destruct (osequence_nth _ _ _ E) as [Hl Hn]. split; [exact Hl|]. cbn [mdim mden]. intros i j Hi Hj.
+    specialize (Hn i [] [] Hi). destruct (osequence_nth _ _ _ Hn) as [Hl2 Hn2].
+    assert (Hrow : length (nth i tb0 []) = length tb0) by (apply square_row; [exact Sq| lia]).
+    apply topoly_sound. unfold pentry. apply Hn2. lia.
+  - (* MMul *)
+    destruct (mtab a) as [A|]; [|discriminate]. destruct (mtab b) as [B|]; [|discriminate]. cbn [obind] in H.
+    destruct (Nat.eqb (length A) (length B)) eqn:El; [|discriminate]. injection H as <-. apply Nat.eqb_eq in El.
+    destruct (IHa A eq_refl) as [HlA HA]. destruct (IHb B eq_refl) as [HlB HB]. cbn [mdim mden].
+    split; [unfold ptmul; rewrite length_map_seq; exact HlA|]. intros i j Hi Hj.
+    rewrite eval_ptmul by lia. rewrite HlA. apply (Lemmas.ksum_map_ext Cops). intros k Hk. apply in_seq in Hk.
+    rewrite HA, HB by lia. reflexivity.
+  - (* MScale *)
+    destruct (topoly e) as [c|] eqn:Ec; [|discriminate]. destruct (mtab a) as [A|]; [|discriminate]. cbn [obind] in H.
+    injection H as <-. destruct (IHa A eq_refl) as [HlA HA]. cbn [mdim mden].
+    split; [unfold ptscale; rewrite map_length; exact HlA|]. intros i j Hi Hj.
+    rewrite eval_ptscale, (topoly_sound th e c Ec), HA by assumption. reflexivity.
+  - (* MCtrl *)
+    destruct (mtab a) as [A|]; [|discriminate]. cbn [obind] in H. destruct (cv <? 2 ^ nc)%nat; [|discriminate].
+    injection H as <-. destruct (IHa A eq_refl) as [HlA HA]. cbn [mdim mden]. cbv zeta.
+    split; [unfold ptctrl; cbv zeta; rewrite length_map_seq, HlA; reflexivity|]. intros i j Hi Hj.
+    unfold ptctrl. cbv zeta. rewrite HlA.
+    rewrite (pentry_map_seq (fun i j => if Nat.eqb (i / mdim a) (j / mdim a)
+        then if Nat.eqb (i / mdim a) cv then pentry A (i mod mdim a) (j mod mdim a)
+             else if Nat.eqb (i mod mdim a) (j mod mdim a) then pone else pzero else pzero)) by assumption.
+    assert (Hd : mdim a <> 0%nat) by (intro Z; rewrite Z in Hi; lia).
+    destruct (Nat.eqb (i / mdim a) (j / mdim a)); [|reflexivity].
+    destruct (Nat.eqb (i / mdim a) cv).
+    + apply HA; apply Nat.mod_upper_bound; exact Hd.
+    + destruct (Nat.eqb (i mod mdim a) (j mod mdim a)); [apply eval_pone| reflexivity].
+Qed.
